@@ -479,9 +479,14 @@ static void pct_tick(sim_thread *me) {
 }
 
 void _dispatch_verif_point(const volatile void *addr, int post) {
-	(void)post;
 	sim_thread *me = self;
 	if (!me || !active) return;
+	if (sim_debug > 1 && post && nwatch && watched(addr)) {
+		uintptr_t a = (uintptr_t)addr; int wi = 0;
+		for (int i = 0; i < nwatch; i++) if (a >= watch[i].lo && a < watch[i].hi) wi = i;
+		uint64_t v = ((a & 7) == 0) ? *(volatile uint64_t *)a : *(volatile uint32_t *)a;
+		fprintf(stderr, "    atomic t%d h%lu watch%d+%lu = %016lx  (ret %p)\n", me->id, (unsigned long)me->nhooks, wi, (unsigned long)(a - watch[wi].lo), (unsigned long)v, __builtin_return_address(0));
+	}
 	if (sim_k.strategy == STRAT_PCT) pct_tick(me);
 	hook_point(me, addr, sim_k.preempt_den);
 }
@@ -1006,7 +1011,7 @@ void sim_seed(uint64_t seed) {
 	if (!tape_out) tape_out = malloc(sizeof(struct tent) * MAXTAPE);
 }
 void sim_begin(void) {
-	sim_debug = getenv("SIM_DBG") != NULL;
+	sim_debug = getenv("SIM_DBG") ? atoi(getenv("SIM_DBG")) : 0;
 	now_ns = start_ns = sim_k.start_up_ns; boot_off = sim_k.boot_off_ns; wall_off = sim_k.wall_off_ns;
 	hw_up = hw_boot = hw_wall = 0; hw_update();
 	next_evt = 0;
